@@ -1170,3 +1170,70 @@ func init() {
 	timeM("UTC", func(i *interpreter, fr *frame, st structure, a []value) value { return st })
 	timeM("Local", func(i *interpreter, fr *frame, st structure, a []value) value { return st })
 }
+
+// ------------------------------------------------------------------ SipHash-2-4 (assembly on amd64)
+//
+// Written against the specification over engine values, so it works for concrete and
+// symbolic message bytes alike.
+
+func init() {
+	reg("github.com/dchest/siphash.Hash", func(i *interpreter, fr *frame, fn *ssa.Function, a []value) value {
+		U := types.Typ[types.Uint64]
+		add := func(x, y value) value { return i.binop(fr, token.ADD, U, U, x, y) }
+		xor := func(x, y value) value { return i.binop(fr, token.XOR, U, U, x, y) }
+		rotl := func(x value, k uint) value {
+			l := i.binop(fr, token.SHL, U, types.Typ[types.Uint], x, k)
+			r := i.binop(fr, token.SHR, U, types.Typ[types.Uint], x, 64-k)
+			return i.binop(fr, token.OR, U, U, l, r)
+		}
+		k0, k1 := a[0], a[1]
+		p := a[2].([]value)
+		v0 := xor(k0, uint64(0x736f6d6570736575))
+		v1 := xor(k1, uint64(0x646f72616e646f6d))
+		v2 := xor(k0, uint64(0x6c7967656e657261))
+		v3 := xor(k1, uint64(0x7465646279746573))
+		round := func() {
+			v0 = add(v0, v1)
+			v1 = rotl(v1, 13)
+			v1 = xor(v1, v0)
+			v0 = rotl(v0, 32)
+			v2 = add(v2, v3)
+			v3 = rotl(v3, 16)
+			v3 = xor(v3, v2)
+			v0 = add(v0, v3)
+			v3 = rotl(v3, 21)
+			v3 = xor(v3, v0)
+			v2 = add(v2, v1)
+			v1 = rotl(v1, 17)
+			v1 = xor(v1, v2)
+			v2 = rotl(v2, 32)
+		}
+		word := func(bs []value, extra uint64) value {
+			var m value = extra
+			for k, b := range bs {
+				w := i.conv(fr, U, types.Typ[types.Uint8], b)
+				m = i.binop(fr, token.OR, U, U, m, i.binop(fr, token.SHL, U, types.Typ[types.Uint], w, uint(8*k)))
+			}
+			return m
+		}
+		n := len(p)
+		for off := 0; off+8 <= n; off += 8 {
+			m := word(p[off:off+8], 0)
+			v3 = xor(v3, m)
+			round()
+			round()
+			v0 = xor(v0, m)
+		}
+		m := word(p[n-n%8:], uint64(n)<<56)
+		v3 = xor(v3, m)
+		round()
+		round()
+		v0 = xor(v0, m)
+		v2 = xor(v2, uint64(0xff))
+		round()
+		round()
+		round()
+		round()
+		return xor(xor(v0, v1), xor(v2, v3))
+	})
+}
